@@ -218,6 +218,9 @@ bad = sp.simplify(f - sp.Integer(1000)**mexp) != 0 or not dimsys_SI.equivalent_d
 v = sp.Rational(7, 3)
 si = convert_to_si(Quantity(v * unit))
 if sp.simplify(si - v) != 0: bad = True; print("convert_to_si(7/3 SI units) =", si)
+for cv in (1, -1, 2, 1000, sp.Rational(1, 1000), 1000000, sp.Float(1.0)):
+    got = convert_to_si(Quantity(cv, dimension=d.subs("angle", 1)))
+    if abs(sp.N(got * sp.Integer(1000)**mexp - cv)) > 1e-12 * abs(sp.N(cv)): bad = True; print("convert_to_si of the internal magnitude", cv, "=", got, "expected", cv / sp.Integer(1000)**mexp)
 if bad:
     print("REPRODUCED"); sys.exit(1)
 '''
@@ -261,6 +264,16 @@ def part_si_unit(ctx):
                         bad = "wrong value"
                     elif r != "unsat":
                         bad = bad or "unknown"
+                if bad is None:
+                    # distinguished magnitudes that code can single out with a structural == (1, -1, 1000, 1/1000 ...): concrete runs
+                    from symplyphysics import Quantity as RealQuantity
+                    for cv in (1, -1, 2, 1000, sp.Rational(1, 1000), 1000000, sp.Float(1.0)):
+                        try:
+                            got = CV.convert_to_si(RealQuantity(cv, dimension=d.subs("angle", 1)))
+                            if abs(sp.N(got * sp.Integer(1000)**mexp - cv)) > 1e-12 * abs(sp.N(cv)):
+                                bad = f"wrong value for the magnitude {cv}: {got}"
+                        except Exception as e:
+                            bad = f"magnitude {cv} raises {type(e).__name__}"
                 if bad is None:
                     ctx.ob(f"si:{name}", "discharged", sample={"dimension": name, "si_unit": str(unit), "mass_exponent": str(mexp)} if len(ctx.samples) < 10 else None)
                 elif bad == "unknown":
@@ -425,6 +438,22 @@ if bad:
 '''
 
 
+REPLAY_NONTEMP = r'''
+import sys
+from sympy.physics import units
+from symplyphysics import Quantity
+from symplyphysics.core.symbols.celsius import from_kelvin_quantity
+bad = False
+for q in (Quantity(5 * units.meter), Quantity(300 * units.joule), Quantity(300 * units.kelvin / units.second), Quantity(300 * units.kelvin**2)):
+    try:
+        r = from_kelvin_quantity(q); print(q.dimension, "->", r, "(accepted)"); bad = True
+    except Exception as e:
+        print(q.dimension, "refused:", type(e).__name__)
+if bad:
+    print("REPRODUCED"); sys.exit(1)
+'''
+
+
 def part_prefix_celsius(ctx):
     from symplyphysics.core.symbols.prefixes import prefixes
     from symplyphysics.core.symbols import celsius as CE
@@ -506,6 +535,27 @@ def part_prefix_celsius(ctx):
                 ctx.violation("C07:celsius:from_kelvin_quantity", "from_kelvin_quantity(x K) is not x - 273.15", REPLAY_CELSIUS.format(x=20.0))
         except (LiftUnsupported, Unencodable, TypeError, AttributeError) as e:
             ctx.ob("celsius:quantity-forms", "unencoded", f"{type(e).__name__}: {e}")
+    # a quantity that is not a temperature is refused, whatever its magnitude (symbolic magnitude and symbolic dimension != temperature)
+    ses = Session(ctx)
+    with ses.active(), rebound(*bindings()):
+        try:
+            v = ses.scalar("v")
+            D = ses.dim("Dnt")
+            ses.assume.append(z3.Not(vec_eq(lift.erase_angle(D.vec), lift.erase_angle(to_vec(sp.physics.units.temperature)))))
+            ses.assume.append(ses.z(v) != 0)
+            ps = explore(lambda: CE.from_kelvin_quantity(make_quantity(v, D)))
+            acc = [p for p in ps if p.kind == "ret"]
+            bad = None
+            for p in acc:
+                r, m = ses.check(p.pc)
+                if r == "sat":
+                    bad = [str(model_value(m, c)) for c in D.vec]
+            if bad is None:
+                ctx.ob("celsius:from_kelvin_quantity refuses non-temperatures", "discharged")
+            else:
+                ctx.violation("C07:celsius:from_kelvin_quantity:accepts-non-temperature", f"from_kelvin_quantity returns a Celsius value for a quantity of dimension exponents {bad}", REPLAY_NONTEMP)
+        except (LiftUnsupported, Unencodable, TypeError, AttributeError) as e:
+            ctx.ob("celsius:from_kelvin_quantity refuses non-temperatures", "unencoded", f"{type(e).__name__}: {e}")
     # IEEE double round trip of the three-operation kernel (z3 QF_FP), |x| <= 1e9
     fp_roundtrip(ctx)
 
